@@ -40,7 +40,9 @@ func certificatePrefix(id sdk.Address) []byte {
 }
 
 func certificateSerialFromKey(key []byte) big.Int {
-	if len(key) < keyAddrPrefixLen+1 {
+	// certificateKey appends Serial.Bytes(), which is empty for serial number 0:
+	// a key that ends right after the owner address is the key of serial 0
+	if len(key) < keyAddrPrefixLen {
 		panic("invalid key size")
 	}
 
